@@ -641,6 +641,8 @@ def observe(q, np, case):
                 out["where"] = "build:{}:{}".format(os.path.basename(where.filename), where.name)
                 return out
             np.random.seed(case["mcseed"])
+            # what else is open in matplotlib when the plot is rendered for the first time
+            mpl_state(q, np, mpl, None, case.get("pre"))
             try:
                 p.savefig(io.BytesIO(), format="png", dpi=20)
             except Exception as e:  # noqa: BLE001
@@ -651,11 +653,13 @@ def observe(q, np, case):
                     # numpy>=2: `np.linalg.linalg` in the Monte-Carlo sampler's except clause —
                     # C02's defect (fixed by that team), not a statement about what is drawn
                     return {"skip": "C02 defect in the Monte Carlo sampler: {}".format(e)}
+                ill = ill_conditioned_raise(np, e, where, case, info, len(info))
+                if ill:
+                    return {"skip": ill}
                 out["exception"] = "{}: {}".format(type(e).__name__, e)
                 out["where"] = "savefig:{}:{}".format(os.path.basename(where.filename), where.name)
                 return out
-            out["main"] = read_axes(np, p.main_ax, "main")
-            out["res"] = read_axes(np, p.res_ax, "res") if p.res_ax is not None else None
+            out.update(read_saved(np, mpl, p))
             if case.get("steps"):
                 out["renders"] = later_renders(q, np, case, p, info)
             # API-level facts
@@ -916,7 +920,8 @@ def later_renders(q, np, case, p, info):
     outs = []
     n = case.get("n0", len(case["objs"]))
     for k, st in enumerate(case["steps"]):
-        mpl.close("all")
+        # old replay files carry no policy: every figure was closed between renders
+        mpl_state(q, np, mpl, p, st.get("mpl", "close-all"))
         try:
             build_plot(q, np, case, p=p, info=info, lo=n, hi=n + st.get("add", 0))
             n += st.get("add", 0)
@@ -934,11 +939,144 @@ def later_renders(q, np, case, p, info):
             if isinstance(e, AttributeError) and "linalg" in str(e):
                 outs.append({"skip": "C02 defect in the Monte Carlo sampler: {}".format(e)})
             else:
-                outs.append(_exc(e, "savefig"))
+                ex = _exc(e, "savefig")
+                ill = ill_conditioned_raise(np, e, None, case, info, n, where=ex["where"])
+                outs.append({"skip": ill} if ill else ex)
             break
-        outs.append({"main": read_axes(np, p.main_ax, "main"),
-                     "res": read_axes(np, p.res_ax, "res") if p.res_ax is not None else None})
+        outs.append(read_saved(np, mpl, p))
     return outs
+
+
+MPL_POLICIES = ("keep", "close-all", "close-own", "foreign", "other-plot")
+
+
+def mpl_state(q, np, mpl, p, policy):
+    """what happens to matplotlib's global state (open figures, current figure) before a render:
+    keep        nothing: the figure of the previous render stays open and current (a user who
+                simply calls savefig again)
+    close-all   pyplot.close("all")
+    close-own   only the figure of this plot's previous render is closed
+    foreign     the user draws a figure of their own with pyplot; it stays open and current
+    other-plot  another qexpy Plot (with a residual panel) is rendered and stays open"""
+    if not policy or policy == "keep":
+        return
+    if policy == "close-all":
+        mpl.close("all")
+    elif policy == "close-own":
+        if p is not None and getattr(p, "main_ax", None) is not None:
+            mpl.close(p.main_ax.figure)
+    elif policy == "foreign":
+        fig = mpl.figure()
+        ax = fig.add_subplot()
+        ax.plot([0.0, 1.0, 2.0], [5.0, 7.0, 6.0], "o-", label="not qexpy's")
+        ax.set_xlabel("foreign x")
+    elif policy == "other-plot":
+        from qexpy.plotting.plotting import Plot
+        other = Plot()
+        other.plot([1.0, 2.0, 3.0, 4.0], [2.0, 4.1, 5.9, 8.2], yerr=0.2)
+        other.fit("linear")
+        other.residuals(True)
+        state = np.random.get_state()
+        other.savefig(io.BytesIO(), format="png", dpi=20)
+        np.random.set_state(state)
+    else:
+        raise KeyError(policy)
+
+
+def read_saved(np, mpl, p):
+    """the artists of the figure that savefig has just written (pyplot's current figure), and
+    whether that figure consists of exactly this plot's axes"""
+    fig = mpl.gcf()
+    axes = list(fig.axes)
+    own = bool(axes) and axes[0] is p.main_ax and (
+        (len(axes) == 1 and p.res_ax is None) or (len(axes) == 2 and axes[1] is p.res_ax))
+    out = {"figure": {"n_axes": len(axes), "own": own}}
+    if own:
+        out["main"] = read_axes(np, axes[0], "main")
+        out["res"] = read_axes(np, axes[1], "res") if len(axes) == 2 else None
+    else:
+        out["main"] = read_axes(np, p.main_ax, "main")
+        out["res"] = read_axes(np, p.res_ax, "res") if p.res_ax is not None else None
+    return out
+
+
+# ----------------------------------------------------------------------------- conditioning
+KAPPA_FIT = 1e8     # the same limit as C06 / C07 (props/_fitcheck.py: KAPPA_MAX)
+
+
+def fit_condition(np, o, data, params):
+    """condition number of the EXACT parameter correlation matrix of a least-squares fit, from
+    the data alone: the squared ratio of the extreme singular values of the column-normalised
+    weighted Jacobian J_ik = (d f(x_i; p) / d p_k) / sigma_i over the points inside the fit range
+    (for the polynomial family J is the Vandermonde matrix; otherwise central differences of the
+    model formula at `params`).  numpy.polyfit inverts exactly this normalised normal matrix; in
+    binary64 the computed inverse of a matrix with condition kappa is positive definite only
+    while m * kappa^2 * 2^-53 < 1 (kappa < 3e7 in the worst case; on this code the first
+    indefinite covariance in 1200 un-centred polynomial fits appeared at kappa = 5.6e10)."""
+    xs = [float(v) for v in data["xs"]]
+    sig = [float(v) for v in data["yerr"]]
+    if not any(v > 0 for v in sig):
+        sig = [1.0] * len(xs)
+    keep = [i for i, x in enumerate(xs) if o["range"] is None or o["range"][0] <= x < o["range"][1]]
+    k = o["k"]
+    nodes, root = fit_expr(o["model"], k)
+    rows = []
+    for i in keep:
+        if not sig[i] > 0:
+            return float("inf")
+        row = []
+        for j in range(k):
+            h = 1e-6 * max(abs(params[j]), 1e-3)
+            up, dn = list(params), list(params)
+            up[j] += h
+            dn[j] -= h
+            row.append((float_eval_nodes(nodes, root, xs[i], up) -
+                        float_eval_nodes(nodes, root, xs[i], dn)) / (2 * h) / sig[i])
+        rows.append(row)
+    J = np.array(rows, dtype=float)
+    if J.shape[0] < k or not np.all(np.isfinite(J)):
+        return float("inf")
+    norms = np.linalg.norm(J, axis=0)
+    if not np.all(norms > 0):
+        return float("inf")
+    sv = np.linalg.svd(J / norms, compute_uv=False)
+    return float("inf") if not sv[-1] > 0 else float((sv[0] / sv[-1]) ** 2)
+
+
+def ill_conditioned_raise(np, e, frame, case, info, n_objs, where=None):
+    """The ONE raise that is not charged to the library: the derivative method found a negative
+    variance for a point of a fit curve (`UndefinedActionError ... propagated ... is negative`,
+    raised in operations.py:__evaluate) AND a fit on the plot is ill-conditioned by the
+    harness's own estimate from the data (fit_condition > 1e8): the variance g^T Cov g is then a
+    sum of terms that cancel to 1e-10 and less of their size, and the inverse that numpy.polyfit /
+    scipy compute is not positive definite to that accuracy.  Any other raise, and this raise on
+    a well-conditioned fit, is reported."""
+    if type(e).__name__ != "UndefinedActionError" or "negative" not in str(e):
+        return None
+    if where is None:
+        where = "savefig:{}:{}".format(os.path.basename(frame.filename), frame.name)
+    if not where.endswith("operations.py:__evaluate"):
+        return None
+    worst = 0.0
+    for o, inf in zip(case["objs"][:n_objs], info):
+        if o["t"] != "fit" or "result" not in inf:
+            continue
+        r = inf["result"]
+        try:
+            if o.get("data"):
+                d = o["data"]
+                data = {"xs": d["xs"], "yerr": _err_list(d["yerr"], len(d["xs"]))}
+            else:
+                ds = r.dataset
+                data = {"xs": [float(v) for v in ds.xvalues], "yerr": [float(v) for v in ds.yerr]}
+            kap = fit_condition(np, o, data, [float(p_.value) for p_ in r.params])
+        except Exception:  # noqa: BLE001
+            continue
+        worst = max(worst, kap)
+    if worst > KAPPA_FIT:
+        return "ill-conditioned fit (condition of the parameter correlation matrix {:.1e} > " \
+               "{:.0e}): {}".format(worst, KAPPA_FIT, str(e)[:60])
+    return None
 
 
 def states(case):
@@ -1018,9 +1156,17 @@ def gen_history(rng, kinds=None):
     if not cands:
         return case
     n0 = rng.choice(cands[:max(1, (len(cands) + 1) // 2)] if rng.random() < 0.6 else cands)
-    nsteps = 1 if rng.random() < 0.6 else 2
+    t = rng.random()
+    nsteps = 1 if t < 0.5 else 2 if t < 0.85 else 3
     rest = n - n0
-    adds = [rest] if nsteps == 1 else (lambda a: [a, rest - a])(rng.randint(0, rest))
+    if nsteps == 1:
+        adds = [rest]
+    else:
+        cuts = sorted(rng.randint(0, rest) for _ in range(nsteps - 1))
+        adds = [b - a for a, b in zip([0] + cuts, cuts + [rest])]
+    # matplotlib's own state: figures of earlier renders stay open unless the history closes them
+    if rng.random() < 0.25:
+        case["pre"] = rng.choice(["foreign", "other-plot"])
     cur = {"errorBars": case["errorBars"], "residuals": case["residuals"], "legend": case["legend"]}
     steps, seen = [], n0
     for add in adds:
@@ -1036,29 +1182,64 @@ def gen_history(rng, kinds=None):
         if rng.random() < 0.25:
             k = rng.choice(["xname", "xunit", "yname", "yunit", "title"])
             st["over"] = {k: rng.choice(["", "R", "re named"])}
-        if not st and not add:
+        t = rng.random()
+        pol = ("keep" if t < 0.5 else "close-all" if t < 0.62 else "close-own" if t < 0.74 else
+               "foreign" if t < 0.87 else "other-plot")
+        if not st and not add and (pol == "close-all" or rng.random() < 0.5):
+            # (otherwise: a plain re-render of the unchanged plot next to its earlier figure)
             cur["errorBars"] = not cur["errorBars"]
             st["errorBars"] = cur["errorBars"]
-        steps.append({"add": add, "set": st})
+        steps.append({"add": add, "set": st, "mpl": pol})
     case["n0"] = n0
     case["steps"] = steps
     return case
+
+
+def deliberate_histories(rng, reps):
+    """histories generated on purpose in every run: ONE plot with a data set and its fit is
+    rendered, a switch is flipped, it is rendered again, the switch is flipped back, it is
+    rendered a third time -- for each of the three switches, from both starting positions, under
+    every policy for the figures of the earlier renders (MPL_POLICIES); and plain re-renders."""
+    out = []
+    k = 0
+    for _ in range(reps):
+        for sw in ("residuals", "errorBars", "legend"):
+            for start in (False, True):
+                pol = MPL_POLICIES[k % len(MPL_POLICIES)]
+                k += 1
+                base = gen_case(rng, kinds=["fit"])
+                while not any(o["t"] == "fit" and o["via"] == "plot.fit" for o in base["objs"]):
+                    base = gen_case(rng, kinds=["fit"])
+                case = dict(base, **{sw: start})
+                case["n0"] = len(case["objs"])
+                case["via_module"] = False
+                case["steps"] = [{"add": 0, "set": {sw: not start}, "mpl": pol},
+                                 {"add": 0, "set": {sw: start},
+                                  "mpl": pol if rng.random() < 0.5 else "keep"}]
+                if rng.random() < 0.3:
+                    case["steps"].append({"add": 0, "set": {}, "mpl": "keep"})
+                if rng.random() < 0.2:
+                    case["pre"] = rng.choice(["foreign", "other-plot"])
+                case["deliberate"] = "flip-{}-{}-between-renders".format(sw, "off-on-off" if not start
+                                                                         else "on-off-on")
+                out.append(case)
+    return out
 
 
 def describe_history(case):
     """the whole history in words: initial objects, each step, for replay files"""
     sts = states(case)
     out = ["render 1: " + ("[via qexpy.plotting.plot/hist/savefig] " if case.get("via_module") else "")
-           + describe(sts[0])]
+           + ("[before it: {}] ".format(case["pre"]) if case.get("pre") else "") + describe(sts[0])]
     n = case.get("n0", len(case["objs"]))
     for k, step in enumerate(case.get("steps", [])):
         added = {"objs": case["objs"][n:n + step.get("add", 0)], "errorBars": sts[k + 1]["errorBars"],
                  "residuals": sts[k + 1]["residuals"], "legend": sts[k + 1]["legend"],
                  "over": sts[k + 1]["over"], "xrange": sts[k + 1]["xrange"]}
         n += step.get("add", 0)
-        out.append("step {}: add [{}]; set {} -> render {}: {}".format(
-            k + 1, describe(added).split(" | ")[0], step.get("set", {}), k + 2,
-            describe(sts[k + 1]).split(" | ", 1)[1]))
+        out.append("step {}: figures of earlier renders: {}; add [{}]; set {} -> render {}: {}".format(
+            k + 1, step.get("mpl", "close-all"), describe(added).split(" | ")[0], step.get("set", {}),
+            k + 2, describe(sts[k + 1]).split(" | ", 1)[1]))
     return out
 
 
